@@ -21,6 +21,8 @@ fn check_by_id(id: &str) -> Option<Arc<dyn Check>> {
         "C03" => Arc::new(cjs::C03),
         "C04" => Arc::new(c04::C04),
         "C05" => Arc::new(csem::C05),
+        "C06" => Arc::new(csem::C06),
+        "C07" => Arc::new(csem::C07),
         "C11" => Arc::new(cjs::C11),
         "C12" => Arc::new(cjs::C12),
         _ => return None,
